@@ -164,6 +164,13 @@ def make_factory(K, orders=None, faults=None, log=None):
         # rounds without a script: no waiting
         _PLAN = {"rank": rank, "pos": posd, "fault": dict(faults or {})}
         real = orig(num_processes)
+        import multiprocessing.pool
+        if not isinstance(real, multiprocessing.pool.Pool):
+            # the library chose something that is not a process pool (e.g. an in-process stand-in): there is no
+            # completion order to script; hand it through untouched and let the result comparison decide
+            if log is not None:
+                log.append(None)
+            return real
         tp = TaggingPool(real, K)
         if log is not None:
             log.append(tp)
